@@ -17,6 +17,15 @@ class Result:
     def count(self, name, n=1):
         self.observed[name] = self.observed.get(name, 0) + int(n)
 
+    def measure(self, name, value, kind="max"):
+        """measured margin (e.g. worst deviation), aggregated over the run with max / min; name is stored as 'max:<name>'"""
+        k = f"{kind}:{name}"
+        v = float(value)
+        if k not in self.observed:
+            self.observed[k] = v
+        else:
+            self.observed[k] = max(self.observed[k], v) if kind == "max" else min(self.observed[k], v)
+
     def violation(self, key, msg, **detail):
         """key = mechanism class of the violation (used for known findings), msg = human witness."""
         if len(self.violations) < 20:
